@@ -58,6 +58,12 @@ func TestC20(t *testing.T) {
 		}, nil)
 }
 
+// ---------------- C20 (strategies): in-flight samples equal the in-flight count at the admission decision, gauges report the enforced limit ----------------
+func TestC20Strategies(t *testing.T) {
+	bareOnly = map[string]bool{"inflight-sample": true, "partition-inflight-sample": true, "metric-kind": true, "limit-gauge": true}
+	driveBare(t, "C20S", []int{1, 2, 3, 4}, Scale(120, 1500), Scale(60, 120))
+}
+
 // ---------------- C20 (registries): right backend metric kind and name; polls only between Start and Stop ----------------
 type polledGauge struct{ n int64 }
 
